@@ -159,7 +159,9 @@ def _tree(draw):
                                              [2001, 9, 9, 1, 46, 62], [1999, 13, 1, 0, 0, 0], [2001, 9, 9, 25, 61, 0]]))
     return {"dirs": [d for d in dirs if d], "files": files, "meta": meta, "links": {k: list(v) for k, v in links.items()},
             "order": list(order), "dates": dates, "explicit_dirs": draw(st.sampled_from(["none", "all", "some"])),
-            "utf8": draw(st.booleans()), "dirs_first": draw(st.booleans())}
+            "utf8": draw(st.booleans()), "dirs_first": draw(st.booleans()),
+            # what the archiver recorded as the files' attributes (Info-ZIP style, permission bits only, nothing, MS-DOS)
+            "attr": draw(st.sampled_from([None, None, "noftype", "zero", "dos"]))}
 
 
 @st.composite
@@ -233,6 +235,8 @@ def _build_twins(tree, root):
         fl = {"utf8": tree["utf8"] and _is_utf8(p)}
         if p in tree.get("dates", {}):
             fl["date"] = tree["dates"][p]
+        if p not in tree["links"] and tree.get("attr"):
+            fl["attr"] = tree["attr"]
         if p in tree["files"]:
             body.append([p, "f", tree["files"][p], fl])
         elif p in tree["meta"]:
